@@ -31,7 +31,7 @@ def run(rep, tier, replay):
                 Kinds=sets(["regular", "hardlink", "symlink", "directory", "missing", "fifo"]),
                 Suffixes=sets(["", ".bz2", ".tbz", ".tbz2", ".tz2", ".tar", ".bz2x"]),
                 Existing=sets(["none", "file", "directory"]), Contents=sets(["good", "bad"]),
-                ModeBits=sets(["0644", "0600", "0755", "4755"]), ErrModes="{FALSE, TRUE}")
+                ModeBits=sets(["0644", "0600", "0755", "4755"]), ErrModes="{FALSE, TRUE}", Stems="{\"x\", \"\"}")
     behs, r = inproc.gen("FileOps", dict(MaxOperands=1), ["NeverClobbers", "SkipsNonRegular", "Export"], "fo17", defs=defs, timeout=1500, workers=8)
     if behs is None:
         raise vlib.Infra("FileOps.tla failed: " + r.text[-1500:])
